@@ -17,6 +17,10 @@ CHECKS = {
    text="TLC checks InCall (server emission / single id generator / client read loop) for every emission sequence up to 3 notifications over 3 kinds x _meta, every registration subset and both response modes, including termination; every returned state of the graph is a scenario executed on the real server and client (alone and in concurrent pairs) and compared with the model's dispatch sequence; event traces are validated by TLC against TraceInCall.",
    note="Trusted: TLC, the harness tool handler that emits through the public sender API, the reference SSE parser. Raw event ids are observed on a second identical call by the raw peer. Sizes/timings of notifications are not varied beyond bursts within one call.",
    technique="TLA+ model checking (TLC) + scenario replay from the state graph + TLC trace validation"),
+ "C04": dict(level="model_checking", design="DESIGN.md §5 C04",
+   text="TLC checks the SessionLifecycle design (issue / serve / refuse / delete / expiry over header classes none, live, deleted, never-issued) for stateful, stateless and session-disabled modes; every edge of the state graph - labelled with the admissible statuses and the required session header - is executed by a raw HTTP peer against a real server in each of 12 configurations (sequentially and as concurrent walks on one server), comparing status, Mcp-Session-Id, GetActiveSessions() and stream termination; the observation logs are validated by TLC against TraceSession (which re-uses the specification's actions).",
+   note="Trusted: TLC, the raw peer. The entropy SOURCE of ids is not observable (format, length, uniqueness and positional diversity of issued ids are checked). The 1-hour expiry sweep is a TLC-only environment action. Where the statement is silent (status of notifications/responses in a live session, stateless DELETE) the specification admits every outcome.",
+   technique="TLA+ model checking (TLC) + edge-cover walk of the state graph on the real server + TLC trace validation"),
 }
 NA = {
  "C20": "data-race freedom is a statement about individual memory accesses under the Go memory model; an abstract state-machine specification has no notion of them (see DESIGN.md §6)",
